@@ -28,6 +28,14 @@ func ProbeNames() []string { return append([]string(nil), probeNames...) }
 
 const probeEnv = "VERIF_PROBE_ORDER"
 
+// probeEnvExtra: semicolon-separated NAME=value pairs added to the environment of the probe child (runtime
+// settings a deployment may impose: a memory limit, a GC percentage, a single processor ...).  Being a
+// VERIF_PROBE_ variable it is recorded in a failure and applied again by its replay.
+const probeEnvExtra = "VERIF_PROBE_ENV"
+
+// EnvPresets are the process environments every probe set is also run under.
+var EnvPresets = []string{"GOMEMLIMIT=32MiB", "GOMEMLIMIT=8MiB;GOGC=10", "GOGC=off", "GOMAXPROCS=1", "GOMAXPROCS=61", "GODEBUG=madvdontneed=1;GOGC=1"}
+
 // probeChild runs in the re-executed process.
 func probeChild() {
 	order := strings.Split(os.Getenv(probeEnv), ",")
@@ -100,6 +108,9 @@ func ReplayOrder(t TB) bool {
 func RunProbeOrder(order []string) (fails []ProbeFailure, err error) {
 	cmd := exec.Command(os.Args[0], "-test.run=^$")
 	cmd.Env = append(os.Environ(), probeEnv+"="+strings.Join(order, ","))
+	if v := os.Getenv(probeEnvExtra); v != "" {
+		cmd.Env = append(cmd.Env, strings.Split(v, ";")...)
+	}
 	var out bytes.Buffer
 	cmd.Stdout, cmd.Stderr = &out, &out
 	runErr := cmd.Run()
@@ -171,9 +182,20 @@ func ProbeOrders(n int) {
 		for _, sk := range soaks {
 			orders = append(orders, append([]string{sk}, names...))
 		}
+	}
+	nPlain := len(orders)
+	if firstEachOnce {
+		// ... and the registration order and its reverse under each environment preset
+		for range EnvPresets {
+			orders = append(orders, names, rev)
+		}
 		firstEachOnce = false
 	}
-	for _, o := range orders {
+	defer os.Unsetenv(probeEnvExtra)
+	for oi, o := range orders {
+		if oi >= nPlain {
+			os.Setenv(probeEnvExtra, EnvPresets[(oi-nPlain)/2])
+		}
 		Eval(int64(len(o)))
 		NT(Hash("probe-order", strings.Join(o, ",")))
 		fails, err := RunProbeOrder(o)
